@@ -1,6 +1,6 @@
 //! Sequential size drivers with the *real* constants (no batch-limit hook):
 //!
-//! * `limit`  — channel / sync channel / executor with 0, 1, 1023, 1024, 1025 and 2049 queued
+//! * `limit`  — channel / sync channel / executor / stream source with 0, 1, 1023, 1024, 1025 and 2049 queued
 //!              items: a bounded batch per dispatch never strands the remainder (C02, C04, C10);
 //! * `manyready` — k in {2, 17, 256, 1000, 1024, 1500} simultaneously ready sources of mixed kinds:
 //!              every one of them is called in the dispatch that found them ready (C02);
@@ -50,9 +50,9 @@ pub fn limit() -> Report {
     let start = Instant::now();
     let mut rep = Report { driver: "limit".into(), exhaustive: true, ..Default::default() };
     let mut outcomes = std::collections::HashSet::new();
-    // kind: 0 channel, 1 sync_channel(n + 476), 2 executor (ready tasks), 3 executor scheduling from the callback
+    // kind: 0 channel, 1 sync_channel(n + 476), 2 executor (ready tasks), 3 executor scheduling from the callback, 4 stream source
     crate::quiet_panics();
-    for kind in 0..4 {
+    for kind in 0..5 {
         for &n in SIZES.iter() {
             let snapshot = rep.violations.len();
             let r = std::panic::catch_unwind(std::panic::AssertUnwindSafe(|| {
@@ -90,6 +90,11 @@ pub fn limit() -> Report {
                     }
                     keep_stx = Some(tx);
                 }
+                4 => {
+                    // a stream with n items available at once, then the end of the stream
+                    let src = calloop::stream::StreamSource::new(futures::stream::iter(0..n as u32)).unwrap();
+                    h.insert_source(src, move |ev, _, got: &mut Vec<u32>| got.push(ev.unwrap_or(u32::MAX))).unwrap();
+                }
                 _ => {
                     let (exec, sched) = executor::<u32>().unwrap();
                     let s2 = sched.clone();
@@ -108,7 +113,7 @@ pub fn limit() -> Report {
                     keep_sched = Some(sched);
                 }
             }
-            let expect_total = n + if kind == 3 && n > 0 { 1 } else { 0 };
+            let expect_total = n + if (kind == 3 && n > 0) || kind == 4 { 1 } else { 0 };
             let mut got: Vec<u32> = vec![];
             let mut per_dispatch = vec![];
             let mut stranded = false;
@@ -129,7 +134,7 @@ pub fn limit() -> Report {
                 el.dispatch(Some(Duration::ZERO), &mut got).unwrap();
                 per_dispatch.push(got.len() - before);
                 rep.transitions += 1;
-                if got.len() - before > 1025 {
+                if got.len() - before > 1025 && kind != 4 {
                     rep.violations.push(viol(&["C02"], "batch-unbounded", &[("kind", kind.to_string())], format!("kind {kind}: one dispatch delivered {} items (limit 1024)", got.len() - before)));
                 }
             }
@@ -141,9 +146,12 @@ pub fn limit() -> Report {
                 if kind == 3 && n > 0 {
                     want.push(1_000_000);
                 }
+                if kind == 4 {
+                    want.push(u32::MAX); // the end of the stream, exactly once and last
+                }
                 let mut sorted = got.clone();
                 sorted.sort();
-                let in_order = kind >= 2 || got == want; // executor outputs follow completion order = schedule order, checked as a set
+                let in_order = kind == 2 || kind == 3 || got == want; // executor outputs follow completion order = schedule order, checked as a set
                 if sorted != want || !in_order {
                     rep.violations.push(viol(
                         &["C04", "C10", "C02"],
@@ -161,7 +169,7 @@ pub fn limit() -> Report {
                 }
             }
             if rep.samples.len() < 6 && n >= 1024 {
-                let kname = ["channel", "sync_channel", "executor", "executor+schedule-in-callback"][kind];
+                let kname = ["channel", "sync_channel", "executor", "executor+schedule-in-callback", "stream"][kind];
                 rep.samples.push(serde_json::json!({"kind": kname, "items": n, "delivered_per_dispatch": per_dispatch}));
             }
             // closing the channel afterwards: exactly one Closed
